@@ -1,6 +1,6 @@
 """Shared machinery of the checks: repo selection, the extracted runner, Coq compilation of
 property files, evidence, replays, known findings.  See DESIGN.md section 1.4 / 2."""
-import os, sys, json, time, hashlib, subprocess, random, re, shutil, fcntl, atexit, traceback
+import os, sys, json, time, hashlib, subprocess, random, re, shutil, fcntl, atexit, traceback, threading
 
 VERIF = os.path.dirname(os.path.dirname(os.path.abspath(__file__)))
 REPO = os.environ.get('VERIF_REPO', '/repo')
@@ -491,6 +491,8 @@ class Check(object):
         os.makedirs(EVIDENCE, exist_ok=True)
         with open(os.path.join(EVIDENCE, self.pid + '.json'), 'w') as f:
             json.dump(ev, f, indent=1, default=str)
+        if os.environ.get('VERIF_DEBUG'):
+            print('## live threads at finish: %d' % threading.active_count())
         print('%s: tier=%s seed=%d obligations=%d/%d evaluations=%d distinct=%d violations=%d known=%d wall=%.1fs'
               % (self.pid, self.tier, self.seed, ndis, nob, self.evaluations, len(self.distinct),
                  len(self.violations) + len(worker_viol), len(self.known_hits), time.time() - self.t0))
